@@ -11,6 +11,22 @@ HARNESS = "proto"
 STREAM = "proto"
 
 
+def private_kmodel(ctx):
+    """Other checks re-link the shared `kmodel` while this one runs (the file is missing for a moment):
+    work with a private copy taken under the lake lock right after `prove`."""
+    import shutil
+    dst = ctx.work / "kmodel"
+    for _ in range(30):
+        try:
+            with vlib.Lock("lake"):
+                shutil.copy2(vlib.LEAN / ".lake/build/bin/kmodel", dst)
+            vlib.KMODEL = dst
+            return
+        except FileNotFoundError:
+            import time
+            time.sleep(2)
+
+
 def failures(case):
     return [(i, v) for i, (t, v) in enumerate(case["ops"]) if v.startswith("FAIL") or v.startswith("bad-op")]
 
@@ -25,7 +41,7 @@ def obs_of(line):
         return {}
 
 
-def judge(ctx, traces, signature, extra_args=(), max_shrink=2, sample_pref=None):
+def judge(ctx, traces, signature, extra_args=(), max_shrink=1, sample_pref=None):
     """Returns True if any failing input (recorded or not) was found."""
     found = False
     shrunk = 0
@@ -61,7 +77,7 @@ def judge(ctx, traces, signature, extra_args=(), max_shrink=2, sample_pref=None)
                 if shrunk < max_shrink:
                     shrunk += 1
                     cut = {"id": c["id"], "ops": c["ops"][: idx + 1]}
-                    small = vlib.shrink(ctx, HARNESS, STREAM, cut, extra_args, budget=25)
+                    small = vlib.shrink(ctx, HARNESS, STREAM, cut, extra_args, budget=18)
                 sf = vlib.first_failure(small) or (idx, v)
                 ssig = signature(small, sf[0], sf[1])
                 kind = "implementation-vs-oracle" if sf[1].startswith("FAIL oracle") else "model-vs-implementation"
@@ -78,6 +94,7 @@ def judge(ctx, traces, signature, extra_args=(), max_shrink=2, sample_pref=None)
 def replay(ctx, data, prop_module):
     vlib.build_harness(ctx, [HARNESS])
     vlib.prove(ctx, [prop_module])
+    private_kmodel(ctx)
     c = vlib.exec_ops(ctx, data.get("harness", HARNESS), data.get("stream", STREAM), data.get("case", "replay"),
                       data["ops"], "replay")
     if c.get("crash"):
